@@ -5,7 +5,7 @@ P = {
     "level_text": "exploration: per-case exact-data clauses plus aggregated rejection-rate clauses (400 noisy / 100 outlier scenarios per batch, bands with false-alarm probability < 1e-9) for each of the four type families and both significance levels; noise grids of 1, 2, N points are drawn into the same statistics.",
     "design_ref": "DESIGN.md section 3 C18",
     "sources": ["harness/props/C18.cpp"],
-    "rule": "case = (class, type family, seed); all numbers of a case come from a fixed stream seeded from the tape; exact class: one over-determined fully-known scenario (dims 1..3, 1..3 frequencies, sigma_nf 1e-6..1e-2, sigma_tr 0 or 1e-5..1e-1, linear sigma(f) given as 1 value / on the calibration grid / on an own 2-point or 5-point grid); noisy batch: 400 scenarios with complex Gaussian noise of exactly the declared size; outlier batch: 100 scenarios with one standard displaced by 100 sigma; non-trivial = every batch, and exact cases with sigma_tr != 0, an own noise grid or a column-system type; distinct = distinct choice tapes",
+    "rule": "case = (class, type family, seed); all numbers of a case come from a fixed stream seeded from the tape; exact class: one over-determined fully-known scenario (dims 1..3, 1..3 frequencies, sigma_nf 1e-6..1e-2, sigma_tr 0 or 1e-5..1e-1, linear sigma(f) given as 1 value / on the calibration grid / on an own 2-point or 5-point grid); noisy batch: 400 scenarios with complex Gaussian noise of exactly the declared size; outlier batch: 100 scenarios with one standard displaced by 100 sigma; non-trivial = every batch, and exact cases with sigma_tr != 0, an own noise grid or a column-system type; distinct = distinct choice tapes; noise-grid-interpolation class (decided per case): noise of exactly a straight-line model sigma(f) is added, the model is declared once on its own grid of 2..5 knots spanning 0.8 fmin..1.25 fmax (calibration frequencies fall between the knots) and once value by value on the calibration grid, significance 1e-9: both must be accepted and correct the device identically (<= 1e-9); the own-grid variants of the exact / noisy / outlier classes use the same wider span, rising or falling",
     "assumptions": COMMON_ASSUME + ["rejection-rate bands: alpha=.05 -> 1..125 of 400, alpha=.01 -> 0..45 of 400 (true rate within [alpha/4, 4 alpha] accepted, >= 0.5 rejected, each with probability > 1 - 1e-9); outliers: >= 90 of 100 rejected"],
     "tiers": tiers(
         quick=[{"name": "rand", "mode": "run", "count": 80, "max_size": 60, "shards": 16, "max_seconds": 70, "shrink_seconds": 90, "hang_seconds": 120}],
